@@ -344,6 +344,10 @@ def api_init_fault(rng, T, total_replies=None, total_bytes=None):
     spec["fault"] = how
     spec["healthy"] = False
     spec["after"] = [["dump"], ["sleep", 5.0], ["close"]]
+    if rng.random() < 0.3:
+        # after the failure another YncaApi object of the same process is initialised against another, healthy receiver
+        oth = [x for x in ("MAIN", "ZONE2", "TUN") if rng.random() < 0.6]
+        spec["other_device"] = {"type": "scripted", "latency": 0.0, "avail": {s_: "Ready" for s_ in oth}, "table": device_table(rng, T, ["SYS"] + oth, p_answer=0.3), "echo_put": True}
     return spec
 
 
